@@ -459,6 +459,27 @@ pub fn run(g: &mut Global) {
     let hi = g.tier.pick(400usize, 3000usize);
     g.random("random", g.tier.pick(60000, 400000), &move || strategy(1, hi, 0), &check);
     g.random("long", g.tier.pick(48, 600), &|| strategy(5000, 10000, 0), &check);
+    // exact arithmetic: periods 1, 3, 7 (alpha = 1, 1/2, 1/4) on small-integer prices, where two averages become
+    // bit-equal mid-stream; every sequence of 6 prices over {1,2,3,4}, fed twice
+    const DY: [usize; 3] = [1, 3, 7];
+    g.exhaustive(
+        "dyadic_exact",
+        (27 + 9 + 3) * 4096,
+        &|i| {
+            let seq = digits(i % 4096, 4, 6);
+            let r = (i / 4096) as usize;
+            let cfg = if r < 27 {
+                Cfg { kind: Kind::Ppo, p: vec![DY[r % 3], DY[(r / 3) % 3], DY[r / 9]], m: X(0.0) }
+            } else if r < 36 {
+                Cfg { kind: Kind::SlowStoch, p: vec![1 + (r - 27) % 3, DY[(r - 27) / 3]], m: X(0.0) }
+            } else {
+                Cfg { kind: Kind::Rsi, p: vec![DY[r - 36]], m: X(0.0) }
+            };
+            let xs: Vec<X> = seq.iter().chain(seq.iter()).map(|&d| X(1.0 + d as f64)).collect();
+            Case { cfg, scalar: true, xs, bars: vec![], stride: 0 }
+        },
+        &check,
+    );
     // identity events (tele.rs): at one or two steps the instance is replaced by its clone, by a used instance
     // (same or longer periods) that clone_from()s it, or by its serde round trip; nothing may change
     g.random("events", g.tier.pick(12000, 100000), &move || crate::tele::wrap(strategy(1, hi, 0)), &|t: &crate::tele::TCase<Case>, ctx: &mut Ctx| crate::tele::check_wrapped(t, ctx, if t.case.scalar { t.case.xs.len() } else { t.case.bars.len() }, t.case.cfg.n(), check));
